@@ -246,7 +246,8 @@ def gen_ell(tier, seed):
     # nearly uncorrelated components (correlation 1e-6 .. 1e-18 of either sign, either component the larger one, several scales):
     # the major axis lies within a hair of a grid axis; any formulation that differences nearly equal numbers loses it here
     for sc in (1.0, 1e-4, 2.5e-9, 3.0e5):
-        for ve, vn in ((1.0, 4.0), (4.0, 1.0), (1.0, 1.0000001), (2.0, 1.0), (1.0, 1.5)):
+        for ve, vn in ((1.0, 4.0), (4.0, 1.0), (1.0, 1.0000001), (2.0, 1.0), (1.0, 1.5), (1.2345678, 4.7654321), (4.7654321, 1.2345678),
+                       (6.016902047785154, 6.424003682947768), (0.3, 0.7), (math.pi, math.e), (math.e, math.pi), (1.0 / 3.0, 2.0 / 3.0)):
             for corr in (1e-6, -1e-6, 1e-9, -1e-10, 1e-12, -1e-14, 1e-15, 1e-16, -1e-18, 3e-21):
                 c = corr * math.sqrt(ve * vn) * sc
                 extra.append([[ve * sc, c, 0.0], [c, vn * sc, 0.0], [0.0, 0.0, sc]])
